@@ -32,10 +32,13 @@ pub struct FaultIo {
     pub inner: Cursor<Vec<u8>>,
     pub calls: Rc<Cell<u64>>,
     pub fail_at: Flt,
+    /// every `read` that reached the device: (bytes asked for, bytes delivered) - how the pull pattern of a
+    /// decoder is measured (`fault.stream … pulled= cbuf=`)
+    pub reads: Rc<std::cell::RefCell<Vec<(u64, u64)>>>,
 }
 impl FaultIo {
     pub fn new(bytes: Vec<u8>, fail_at: Flt) -> FaultIo {
-        FaultIo { inner: Cursor::new(bytes), calls: Rc::new(Cell::new(0)), fail_at }
+        FaultIo { inner: Cursor::new(bytes), calls: Rc::new(Cell::new(0)), fail_at, reads: Rc::new(std::cell::RefCell::new(vec![])) }
     }
     fn tick(&mut self) -> std::io::Result<()> {
         let c = self.calls.get();
@@ -47,7 +50,12 @@ impl FaultIo {
     }
 }
 impl Read for FaultIo {
-    fn read(&mut self, buf: &mut [u8]) -> std::io::Result<usize> { self.tick()?; self.inner.read(buf) }
+    fn read(&mut self, buf: &mut [u8]) -> std::io::Result<usize> {
+        self.tick()?;
+        let n = self.inner.read(buf)?;
+        self.reads.borrow_mut().push((buf.len() as u64, n as u64));
+        Ok(n)
+    }
 }
 impl Write for FaultIo {
     fn write(&mut self, buf: &[u8]) -> std::io::Result<usize> { self.tick()?; self.inner.write(buf) }
@@ -404,40 +412,114 @@ fn run_rawcopy(src: Vec<u8>, chunk: usize, k: Flt) -> (String, u64, Option<Strin
     match r { Ok((s, l)) => (s, calls.get(), l), Err(_) => ("panic".into(), calls.get(), None) }
 }
 
-/// The streaming reader under faults: entries are read partly (`consume` bytes each) and dropped, so the drain on
-/// drop runs into the fault as well; neither a read nor the drop may panic.
-fn run_streaming(bytes: Vec<u8>, consume: usize, k: Flt) -> (String, u64, bool, bool) {
+/// What one run of the streaming entry loop showed.
+pub struct SRun {
+    /// one token per `read_zipfile_from_stream` call: `<i>=<name>:ok:<crc>:<len>` (the consumer got `len` bytes),
+    /// `<i>=<name>:<error class>` (one of the consumer's reads failed), `<i>=<error class>` (the call itself
+    /// failed), `end` (the central directory was reached)
+    pub toks: Vec<String>,
+    pub ncalls: u64,
+    pub any_err: bool,
+    /// index of the entry in whose drop-time drain the fault fired (the reads `Drop for ZipFile` issues)
+    pub drain_hit: Option<usize>,
+    /// per entry handed out: (compression method, compressed bytes the consumer's reads pulled from the device,
+    /// largest read they asked for, do the reads follow the pattern `min(left, largest)` each delivered in full)
+    pub pulls: Vec<(u16, u64, u64, bool)>,
+}
+
+/// `true` iff the device reads `rd` (asked, delivered) are those of `Model.takeLoop chunk p p`: each asks for
+/// `min(left, chunk)` bytes and gets them, until `p` bytes are delivered.
+fn pattern_regular(rd: &[(u64, u64)], p: u64, chunk: u64) -> bool {
+    let mut left = p;
+    for &(asked, got) in rd {
+        if left == 0 || asked != left.min(chunk) || got != asked { return false; }
+        left -= got;
+    }
+    left == 0
+}
+
+/// The streaming reader under faults: of every entry the consumer asks for `consume` decoded bytes (buffers of
+/// `min(left, 65536)`, again until it has them, end-of-file or an error: `read::consume_k`), then drops the
+/// handle, so the drain on drop runs into the fault as well; neither a read nor the drop may panic.
+/// `Err(())`: a panic.
+fn run_streaming(bytes: Vec<u8>, consume: usize, k: Flt) -> Result<SRun, ()> {
     let io = FaultIo::new(bytes, k);
     let calls = io.calls.clone();
     let calls2 = io.calls.clone();
+    let log = io.reads.clone();
     let r = catch(std::panic::AssertUnwindSafe(move || {
         let mut io = io;
-        let mut s = String::new();
-        let mut any_err = false;
-        // did the fault fire inside a drain (the reads `Drop for ZipFile` issues)?
-        let mut in_drain = false;
+        let mut run = SRun { toks: vec![], ncalls: 0, any_err: false, drain_hit: None, pulls: vec![] };
         for i in 0..64 {
             match zip::read::read_zipfile_from_stream(&mut io) {
-                Ok(None) => { s += " end"; break; }
-                Err(e) => { any_err = true; s += &format!(" {i}={}", super::read::cls_z(&e)); break; }
+                Ok(None) => { run.toks.push("end".into()); break; }
+                Err(e) => { run.any_err = true; run.toks.push(format!("{i}={}", super::read::cls_z(&e))); break; }
                 Ok(Some(mut f)) => {
-                    let mut buf = vec![0u8; consume];
-                    let mut got = 0usize;
-                    let mut res = "ok".to_string();
-                    while got < consume {
-                        match f.read(&mut buf[got..]) { Ok(0) => break, Ok(c) => got += c, Err(e) => { any_err = true; res = super::read::cls_io(&e); break; } }
+                    let l0 = log.borrow().len();
+                    let (got, err) = super::read::consume_k(&mut f, consume);
+                    {
+                        let lg = log.borrow();
+                        let rd = &lg[l0..];
+                        let pulled: u64 = rd.iter().map(|x| x.1).sum();
+                        let chunk = rd.iter().map(|x| x.0).max().unwrap_or(65536);
+                        run.pulls.push((super::read::method_u16(f.compression()), pulled, chunk, pattern_regular(rd, pulled, chunk)));
                     }
-                    s += &format!(" {i}={}:{res}:{}:{}", hex(f.name().as_bytes()), crc32fast::hash(&buf[..got]), got);
+                    let name = hex(f.name().as_bytes());
+                    match err {
+                        Some(e) => { run.any_err = true; run.toks.push(format!("{i}={name}:{}", super::read::cls_io(&e))); }
+                        None => run.toks.push(format!("{i}={name}:ok:{}:{}", crc32fast::hash(&got), got.len())),
+                    }
                     // `f` is dropped here: the rest of the entry is drained from the faulty stream
                     let before = calls2.get();
                     drop(f);
-                    if let Some((kk, _)) = k { if before <= kk && kk < calls2.get() { in_drain = true; } }
+                    if let Some((kk, _)) = k { if before <= kk && kk < calls2.get() { run.drain_hit = Some(i); } }
                 }
             }
         }
-        (s, any_err, in_drain)
+        run
     }));
-    match r { Ok((s, e, d)) => (s, calls.get(), e, d), Err(_) => ("panic".into(), calls.get(), true, false) }
+    match r { Ok(mut run) => { run.ncalls = calls.get(); Ok(run) }, Err(_) => Err(()) }
+}
+
+/// The `pulled=` / `cbuf=` arguments of a `fault.stream` line from the fault-free run: for a Stored entry the
+/// consumer pulls what it asks for (`consume`; the model caps it at the compressed size itself, whatever entry
+/// turns up at that index under a fault), for a compressed one what was measured.  `None`: some decoder's reads
+/// do not follow the `takeLoop` pattern (the scenario is then judged by the oracle alone).
+fn pull_args(free: &SRun, consume: usize) -> Option<String> {
+    if free.pulls.iter().any(|p| !p.3) { return None; }
+    let pulled: Vec<String> = free.pulls.iter().map(|p| if p.0 == 0 { consume.to_string() } else { p.1.to_string() }).collect();
+    let cbuf: Vec<String> = free.pulls.iter().map(|p| if p.0 == 0 { "65536".to_string() } else { p.2.max(1).to_string() }).collect();
+    let j = |v: Vec<String>| if v.is_empty() { "-".to_string() } else { v.join(",") };
+    Some(format!("pulled={} cbuf={}", j(pulled), j(cbuf)))
+}
+
+/// The one known way for a streaming run to return Ok everywhere with other entries (K-J), as narrowly as the
+/// implementation alone can tell: (a) every call returned Ok, (b) the fault fired in a read issued by the
+/// drop-time drain of entry `j` (a drain only touches the device when the consumer left part of the entry unread),
+/// (c) the run agrees with the fault-free one up to and including entry `j` and differs at the very next call.
+fn is_kj(run: &SRun, free: &SRun) -> bool {
+    if run.any_err { return false; }
+    let j = match run.drain_hit { Some(j) => j, None => return false };
+    run.toks.len() > j && free.toks.len() > j && run.toks[..=j] == free.toks[..=j] && run.toks.get(j + 1) != free.toks.get(j + 1)
+}
+
+/// A writer-made archive with compressed (and stored) entries for the streaming scenarios; `big`: one entry of
+/// incompressible data whose compressed stream spans several decoder pulls and several 64 KiB drain reads.
+fn comp_stream_archive(r: &mut Rng, big: bool) -> Vec<u8> {
+    let mut w = zip::ZipWriter::new(Cursor::new(vec![]));
+    for i in 0..r.range(1, 4) {
+        let mut m = *r.pick(&[zip::CompressionMethod::Deflated, zip::CompressionMethod::Bzip2, zip::CompressionMethod::Zstd, zip::CompressionMethod::Stored]);
+        if big && i == 0 { m = *r.pick(&[zip::CompressionMethod::Deflated, zip::CompressionMethod::Bzip2, zip::CompressionMethod::Zstd]); }
+        let _ = w.start_file(format!("c{i}"), zip::write::FileOptions::default().compression_method(m));
+        if big && i == 0 {
+            let n = r.range(140_000, 200_000) as usize;
+            let _ = w.write_all(&r.bytes(n));
+        } else {
+            let n = r.below(300) as usize;
+            let _ = w.write_all(&b"abcabcabd".repeat(n / 9 + 1)[..n]);
+        }
+    }
+    w.finish().map(|c| c.into_inner()).unwrap_or_default()
 }
 
 /// A stream whose first entry hides, exactly zero, one or two 64 KiB drain reads behind the bytes the consumer takes,
@@ -515,16 +597,28 @@ impl Stream for Fault {
             // never emitted shows as a missing `gen.<class>` / `fam.<family>` counter in the evidence)
             match i % 16 {
                 1 | 9 => {
-                    // streaming reader, partial consumption, drain on drop (oracle only)
-                    // one scenario per 80 (and none in the further-seed tier, the lines are long): a nested archive /
-                    // central signature behind 64 KiB drain reads (known finding K-J)
+                    // streaming reader, partial consumption, drain on drop: compared call by call with the model
+                    // (`streamEntryC` per entry) under every fault index.  Residue 1: stored entries (exact); residue 9:
+                    // compressed entries with the measured pull pattern of the decoders (`pulled=` compressed bytes
+                    // per entry, `cbuf=` the decoder's read size; oracle-only - `fault.streamo` - should a decoder's
+                    // reads not follow the takeLoop pattern).  One scenario per 80 (none in the further-seed tier, the
+                    // lines are long): a nested archive / central signature behind 64 KiB drain reads (K-J); one
+                    // with an incompressible entry spanning several decoder pulls and several drain reads.
                     let nested = i % 80 == 9 && tier != "quickx";
-                    let consume = if nested { *r.pick(&[0usize, 4, 100]) } else { *r.pick(&[0usize, 1, 7, 1000]) };
-                    let bytes = if nested { nested_stream_archive(&mut r, consume) } else { finished(&mut r) };
+                    let big = i % 80 == 41 && tier != "quickx";
+                    let consume = if nested { *r.pick(&[0usize, 4, 100]) } else if big { *r.pick(&[0usize, 1, 40000, 70000, 250000]) } else { *r.pick(&[0usize, 1, 7, 1000]) };
+                    let bytes = if nested { nested_stream_archive(&mut r, consume) } else if i % 16 == 9 { comp_stream_archive(&mut r, big) } else { finished(&mut r) };
                     if nested { *g.dist.entry("stream.nested-behind-drain".into()).or_insert(0) += 1; }
-                    let (_, n, _, _) = run_streaming(bytes.clone(), consume, None);
-                    g.push("stream.free", format!("fault.stream bytes={} consume={consume} k=none", hex(&bytes)));
-                    push_faults(&mut g, "stream.k", &format!("fault.stream bytes={} consume={consume}", hex(&bytes)), i, n, false);
+                    if big { *g.dist.entry("stream.big-compressed".into()).or_insert(0) += 1; }
+                    let free = match run_streaming(bytes.clone(), consume, None) { Ok(f) => f, Err(()) => continue };
+                    for p in &free.pulls { *g.dist.entry(format!("stream.entry.m{}{}", p.0, if p.1 > 0 && p.1 < 1 << 16 { ".pulled-part" } else if p.1 == 0 { ".pulled-none" } else { ".pulled-64k+" })).or_insert(0) += 1; }
+                    let codec = super::read::codec_table(&bytes);
+                    let (op, tail) = match pull_args(&free, consume) {
+                        Some(pa) => ("fault.stream", format!(" codec={codec} {pa}")),
+                        None => { *g.dist.entry("stream.pattern-unmodelled".into()).or_insert(0) += 1; ("fault.streamo", String::new()) }
+                    };
+                    g.push("stream.free", format!("{op} bytes={} consume={consume}{tail} k=none", hex(&bytes)));
+                    push_faults(&mut g, "stream.k", &format!("{op} bytes={} consume={consume}{tail}", hex(&bytes)), i, free.ncalls, false);
                 }
                 3 | 11 => {
                     // encrypted / compressed read scenario, small caller buffers, retry after an error (oracle only)
@@ -602,7 +696,13 @@ impl Stream for Fault {
                 let (s, n) = run_read(get_hex(&a, "bytes").unwrap_or_default(), k);
                 format!("{s} ncalls={n}")
             }
-            "fault.enc" | "fault.writec" | "fault.writeo" | "fault.rawcopy" | "fault.stream" => "oracle-only".into(),
+            "fault.enc" | "fault.writec" | "fault.writeo" | "fault.rawcopy" | "fault.streamo" => "oracle-only".into(),
+            "fault.stream" => {
+                match run_streaming(get_hex(&a, "bytes").unwrap_or_default(), get_u64(&a, "consume").unwrap_or(0) as usize, k) {
+                    Ok(r) => format!("{} ncalls={}", r.toks.join(" "), r.ncalls),
+                    Err(()) => "panic".into(),
+                }
+            }
             "fault.write" => {
                 let calls: Vec<String> = a.get("calls").map(|c| c.split(';').map(|s| s.to_string()).collect()).unwrap_or_default();
                 if calls.is_empty() { return "bad-op".into(); }
@@ -623,19 +723,23 @@ impl Stream for Fault {
         }
         let (op, a) = parse_line(line);
         let k = k_of(&a);
-        if op == "fault.stream" {
+        if op == "fault.stream" || op == "fault.streamo" {
             let bytes = get_hex(&a, "bytes").unwrap_or_default();
             let consume = get_u64(&a, "consume").unwrap_or(0) as usize;
-            let (res, _, any_err, in_drain) = run_streaming(bytes.clone(), consume, k);
-            if res.contains("panic") { f.push(OracleFailure { what: format!("panic under an injected I/O fault in the streaming reader (read or drain on drop): k={k:?} consume={consume}") }); return f; }
-            if k.is_some() && !any_err {
-                let (free, _, _, _) = run_streaming(bytes, consume, None);
-                if res != free {
-                    // the one known way: the fault fired in a read issued by `Drop for ZipFile` (which cannot report it
-                    // and ends the drain), and what follows in the stream parses as entries (known finding K-J);
-                    // the same symptom with the fault anywhere else is a violation
-                    if in_drain { f.push(OracleFailure { what: format!("K-J stream-drain-fault-swallowed: a read error while a dropped streamed entry is drained ends the drain silently; the next read_zipfile_from_stream parses the undrained rest of the entry: every call Ok, entries `{res}` instead of `{free}`") }); }
-                    else { f.push(OracleFailure { what: format!("streaming reader: every call succeeded under the fault but the result differs from the fault-free run: `{res}` vs `{free}`") }); }
+            let run = match run_streaming(bytes.clone(), consume, k) {
+                Ok(r) => r,
+                Err(()) => { f.push(OracleFailure { what: format!("panic under an injected I/O fault in the streaming reader (read or drain on drop): k={k:?} consume={consume}") }); return f; }
+            };
+            if k.is_some() && !run.any_err {
+                let free = match run_streaming(bytes, consume, None) { Ok(r) => r, Err(()) => return f };
+                if run.toks != free.toks {
+                    let (res, fr) = (run.toks.join(" "), free.toks.join(" "));
+                    // the one known way (known finding K-J): the fault fired in a read issued by `Drop for ZipFile`
+                    // (which cannot report it and ends the drain), and what follows in the stream parses as entries -
+                    // `is_kj`: all Ok, fault inside the drain of entry j, runs equal up to j and different at j+1;
+                    // the same symptom with the fault anywhere else, or a difference anywhere else, is a violation
+                    if is_kj(&run, &free) { f.push(OracleFailure { what: format!("K-J stream-drain-fault-swallowed: a read error while a dropped streamed entry is drained ends the drain silently; the next read_zipfile_from_stream parses the undrained rest of the entry: every call Ok, entries `{res}` instead of `{fr}`") }); }
+                    else { f.push(OracleFailure { what: format!("streaming reader: every call succeeded under the fault but the result differs from the fault-free run (fault {}): `{res}` vs `{fr}`", match run.drain_hit { Some(j) => format!("inside the drain of entry {j}, but the runs do not first differ at the call after it"), None => "outside every drop-time drain".to_string() }) }); }
                 }
             }
             return f;
